@@ -2,7 +2,10 @@ use crate::runner::Tier;
 use std::path::Path;
 
 pub mod c01;
+pub mod browser;
 pub mod c02;
+pub mod c03;
+pub mod c05;
 pub mod c06;
 pub mod responder;
 pub mod c07;
@@ -18,6 +21,8 @@ pub fn run(id: &str, tier: Tier) -> i32 {
     match id {
         "C01" => c01::run(tier),
         "C02" => c02::run(tier),
+        "C03" => c03::run(tier),
+        "C05" => c05::run(tier),
         "C06" => c06::run(tier),
         "C07" => c07::run(tier),
         "C09" => c09::run(tier),
@@ -38,6 +43,8 @@ pub fn replay(id: &str, file: &Path) -> i32 {
     match id {
         "C01" => c01::replay(file),
         "C02" => c02::replay(file),
+        "C03" => c03::replay_file(file),
+        "C05" => c05::replay_file(file),
         "C06" => c06::replay(file),
         "C07" => c07::replay(file),
         "C09" => c09::replay(file),
